@@ -319,6 +319,23 @@ def getter_shapes(src, cls):
     return out
 
 
+def adaptor_call(src, method):
+    """`virtual R method(params) CPPUTEST_OVERRIDE { [return] [wrap(] callee_(args) [)] [!= 0]; }` of an adaptor node:
+    which parameter goes to which argument position of the wrapped C function"""
+    m = re.search(r"virtual\s+[\w\s]+?\b%s\s*\(([^)]*)\)\s*CPPUTEST_OVERRIDE\s*\{" % method, src)
+    if not m:
+        raise TranslateError("adaptor method not found: " + method)
+    params = [parse_param(p)[0] for p in split_top(m.group(1))]
+    body = norm(function_body(src, r"virtual\s+[\w\s]+?\b%s\s*\([^)]*\)\s*CPPUTEST_OVERRIDE\s*\{" % method))
+    mm = re.match(r"^(?:return\b\s*)?(?:(\w+)\()?(\w+_)\(([^()]*)\)\)?(!=0)?;$", body)
+    if not mm:
+        return "{ method := %s, callee := \"?\", order := [], wrap := %s }" % (lean_str(method), lean_str("other:" + body))
+    wrap = (mm.group(1) or "") + (mm.group(4) or "")
+    order = [str(params.index(a.strip())) if a.strip() in params else "99" for a in split_top(mm.group(3))]
+    return "{ method := %s, callee := %s, order := [%s], wrap := %s }" % (
+        lean_str(method), lean_str(mm.group(2)), ", ".join(order), lean_str(wrap))
+
+
 def method_body(src, regex):
     return norm(function_body(src, regex))
 
@@ -395,6 +412,8 @@ def extract():
     t += "/-- C++ return-value getters of MockCheckedActualCall (MockActualCall.cpp) -/\n"
     t += "def actGetters : List (String × GetterShape) := [\n  %s]\n\n" % ",\n  ".join(
         "(%s, %s)" % (lean_str(a), b) for a, b in getter_shapes(act, "MockCheckedActualCall"))
+    t += "/-- operand order of the adaptor nodes: which parameter of the C++ virtual goes to which argument of the C function -/\n"
+    t += "def adaptors : List AdaptorCall := [\n  %s]\n\n" % ",\n  ".join(adaptor_call(src, m) for m in ("isEqual", "valueToString", "copy"))
     t += "/-- normalised bodies of the adaptor nodes, the C failure reporter and what they are compared with -/\n"
     t += "def shapes : List (String × String) := [\n  %s]\n" % ",\n  ".join(
         "(%s, %s)" % (lean_str(k), lean_str(v)) for k, v in shapes.items())
